@@ -18,6 +18,8 @@
 #include <sys/ioctl.h>
 #include <sys/stat.h>
 #include <poll.h>
+#include <signal.h>
+#include <pthread.h>
 #include <dirent.h>
 #include <fcntl.h>
 #include <unistd.h>
@@ -154,6 +156,7 @@ struct Seen {
 	std::vector<std::string> qlook_after, hlook_after; // step 4 (headers: looked up again, header() returns by value)
 	std::vector<std::string> qabsent, habsent;         // results of the probes of absent keys / names (must be empty)
 	std::vector<std::string> qabsent_keys;
+	std::string is_errors; // disagreements of request.is(pattern) / suffix() with a reference match (empty = none)
 	bool options = false;
 };
 
@@ -180,6 +183,63 @@ public:
 			setRoot(make_root().c_str());
 		if (o.cors)
 			setCrossDomain(true);
+	}
+	// Route matching as an application's dispatch does it: request.is(pattern), is(method, pattern), suffix(), with patterns
+	// derived from the parsed path: the path itself and near misses, prefixes + '*', and '*' patterns whose fixed prefix is
+	// LONGER than the path (by 1, 20, 60, 200 bytes) or differs from it in its last byte.  Oracle: plain prefix comparison.
+	// (Paths of 16+ bytes live in heap storage, so a comparison running past the path is an ASan report.)
+	void check_is(asl::HttpRequest& q, Seen& s)
+	{
+		const std::string p = S(q.path()), m = S(q.method());
+		std::vector<std::string> pats;
+		std::string near = p;
+		if (!near.empty())
+			near[near.size() - 1] = (char)(near[near.size() - 1] == 'x' ? 'y' : 'x');
+		auto longer = [&](size_t e) { return p + std::string("/members/roles/and/some/more/segments/").substr(0, e < 38 ? e : 38) + std::string(e < 38 ? 0 : e - 38, 'r') + "*"; };
+		// always: exact, a prefix + '*', a pattern much longer than the path, near miss + '*'
+		pats.push_back(p);
+		pats.push_back(p.substr(0, p.size() / 2) + "*");
+		pats.push_back(longer(200));
+		pats.push_back(near + "*");
+		uint64_t h = 1469598103934665603ULL;
+		for (unsigned char ch : p)
+			h = (h ^ ch) * 1099511628211ULL;
+		if (h % 4 == 0) { // for a quarter of the paths the complete set
+			pats.push_back(near);
+			pats.push_back(p + "*");
+			pats.push_back(longer(60));
+			pats.push_back(p + "x");
+			pats.push_back(p.substr(0, p.size() ? p.size() - 1 : 0));
+			pats.push_back("*");
+			pats.push_back(p.substr(0, 1) + "*");
+			pats.push_back(p.substr(0, p.size() ? p.size() - 1 : 0) + "*");
+			pats.push_back(longer(1));
+			pats.push_back(longer(20));
+			pats.push_back(near + "/organizations/members*");
+			pats.push_back(p + "*tail");
+		}
+		for (size_t j = 0; j < pats.size(); j++) {
+			const std::string& pat = pats[j];
+			asl::String apat = A(pat);
+			size_t star = pat.find('*');
+			bool want = star == std::string::npos ? p == pat : (p.size() >= star && p.compare(0, star, pat, 0, star) == 0);
+			size_t wlen = (want && star != std::string::npos) ? p.size() - star : 0;
+			bool got = q.is(apat);
+			const asl::String& gs = q.suffix();
+			bool sufok = (size_t)gs.length() == wlen && (wlen == 0 || memcmp(*gs, p.data() + star, wlen) == 0);
+			if (got != want || !sufok) {
+				if (s.is_errors.size() < 600)
+					s.is_errors += "is(" + pat.substr(0, 80) + ") = " + (got ? "true" : "false") + " suffix '" + S(gs).substr(0, 40) + "', path '" + p.substr(0, 80) + "' wants " +
+					               (want ? "true" : "false") + " suffix '" + (wlen ? p.substr(star, 40) : std::string()) + "'; ";
+			}
+			if (j == 1 || j == 5 || j == 9) { // the method-and-pattern overload
+				bool gm = q.is(m.c_str(), apat);
+				bool gn = q.is(m == "NOPE" ? "GET" : "NOPE", apat);
+				if (gm != want || gn)
+					if (s.is_errors.size() < 600)
+						s.is_errors += "is(method, " + pat.substr(0, 80) + ") = " + (gm ? "true" : "false") + " / with another method " + (gn ? "true" : "false") + "; ";
+			}
+		}
 	}
 	void record(asl::HttpRequest& q, bool options)
 	{
@@ -219,9 +279,7 @@ public:
 			s.query[S(k)] = S(v);
 		// accessors an application typically uses; they must be total on whatever was parsed
 		(void)q.hasHeader("Content-Type");
-		(void)q.is("GET", "/a*");
-		(void)q.suffix();
-		(void)q.is("/d/index.html");
+		check_is(q, s);
 		(void)q.sender();
 		(void)q.text();
 		seen.push_back(s);
@@ -256,6 +314,7 @@ struct Result {
 	double secs = 0;
 	bool threaded = false;
 	bool bad_alloc = false; // the library gave up with std::bad_alloc (reservation above the allocation limit)
+	int signals = 0; // SIGUSR1 deliveries to the serving thread between pieces
 	int bursts = 0, bursts_separate = 0; // fragmented delivery: pieces sent / pieces the server had consumed before the next was sent
 };
 
@@ -421,8 +480,30 @@ inline Result run_stream(const std::string& stream, const Opts& o)
 // the server has consumed it (SIOCOUTQ of the sending end back to 0, bounded wait), pauses `pause_us` so that the reader is
 // back in its wait, then sends the next one; after the last piece it half-closes.  The server therefore really reads the
 // stream in separate bursts (how many were consumed separately is reported in the result).
-inline Result run_stream_pieces(const std::vector<std::string>& pieces, const Opts& o, int pause_us)
+// sigmask: bit i set = after piece i has been consumed (and the pause), SIGUSR1 is sent to the thread that serves the
+// connection (the caller's thread: serve() runs in it), i.e. normally while it waits in select() for the next piece; the
+// handler is a no-op installed without SA_RESTART, so the wait fails with EINTR.
+inline void noop_signal(int) {}
+inline void install_noop_sigusr1()
 {
+	static bool done = false;
+	if (done)
+		return;
+	done = true;
+	struct sigaction sa;
+	memset(&sa, 0, sizeof sa);
+	sa.sa_handler = noop_signal;
+	sigemptyset(&sa.sa_mask);
+	sa.sa_flags = 0; // no SA_RESTART
+	sigaction(SIGUSR1, &sa, 0);
+}
+inline Result run_stream_pieces(const std::vector<std::string>& pieces, const Opts& o, int pause_us, unsigned sigmask = 0)
+{
+	if (sigmask)
+		install_noop_sigusr1();
+	pthread_t server_thread = pthread_self();
+	std::atomic<bool> serving{false};
+	std::atomic<bool>* servingp = &serving;
 	Result res;
 	int sv[2];
 	if (socketpair(AF_UNIX, SOCK_STREAM, 0, sv) != 0) {
@@ -443,7 +524,7 @@ inline Result run_stream_pieces(const std::vector<std::string>& pieces, const Op
 	int fd = sv[1];
 	Result* rp = &res;
 	const std::vector<std::string>* pp = &pieces;
-	std::thread feeder([fd, rp, pp, pause_us]() {
+	std::thread feeder([fd, rp, pp, pause_us, sigmask, server_thread, servingp]() {
 		char buf[65536];
 		auto drain = [&]() {
 			ssize_t k;
@@ -476,6 +557,11 @@ inline Result run_stream_pieces(const std::vector<std::string>& pieces, const Op
 				rp->bursts_separate++;
 			if (pause_us > 0)
 				usleep((useconds_t)pause_us);
+			if (((sigmask >> i) & 1) && servingp->load()) {
+				pthread_kill(server_thread, SIGUSR1);
+				rp->signals++;
+				usleep((useconds_t)(pause_us > 0 ? pause_us : 1000));
+			}
 		}
 		shutdown(fd, SHUT_WR);
 		ssize_t k;
@@ -487,12 +573,14 @@ inline Result run_stream_pieces(const std::vector<std::string>& pieces, const Op
 		double t0 = mono();
 		serve_cpu0().store(thread_cpu());
 		serve_started().store(t0);
+		serving.store(true);
 		try {
 			static_cast<asl::SocketServer&>(srv).serve(asl::Socket(sv[0]));
 		}
 		catch (const std::bad_alloc&) {
 			res.bad_alloc = true;
 		}
+		serving.store(false);
 		serve_started().store(0);
 		res.secs = mono() - t0;
 		res.seen.swap(srv.seen);
@@ -512,6 +600,8 @@ inline void check_universal(const Result& r, const std::string& stream, FailFn f
 			fail("request #" + std::to_string(i) + " handed to the application has '..' in path(): resource " + s.resource);
 		if (s.method.empty())
 			fail("request #" + std::to_string(i) + " handed to the application without a method");
+		if (!s.is_errors.empty())
+			fail("request #" + std::to_string(i) + ": route matching disagrees with a prefix comparison: " + s.is_errors);
 		bool really_absent = true;
 		for (auto& k : s.qabsent_keys)
 			if (s.query_before.count(k))
